@@ -20,6 +20,12 @@ func old[T any](x T) T          { return x }
 func implies(a, b bool) bool    { return !a || b }
 func unchanged[T any](x T) bool { return true }
 func isNew[T any](x T) bool     { return true }
+
+// visited(m, k): the range loop over map m has already produced key k.
+func visited[K comparable, V any](m map[K]V, k K) bool { return true }
+
+// has(m, k): key k is present in map m.
+func has[K comparable, V any](m map[K]V, k K) bool { _, ok := m[k]; return ok }
 func ite[T any](c bool, a, b T) T {
 	if c {
 		return a
